@@ -8,7 +8,7 @@ From Coq Require Import ZArith NArith List Bool.
 From Texel Require Import Chess.Types Chess.Position Chess.PositionSpec Chess.PositionB Chess.BitBoard Chess.MoveGen Chess.Spec Chess.MoveGenWF
   Chess.BitBoardProofs Chess.RayProofs Chess.MagicSweep Chess.MagicProofs Chess.MoveGenProofs Chess.AttackProofs
   Chess.SliderProofs Chess.PawnProofs Chess.PseudoProofs Chess.MakeSpecProofs Chess.TryMoveProofs Chess.CastleProofs
-  Chess.LegalProofs Chess.ShortcutProofs Chess.IsLegalProofs gen.BitBoardTables.
+  Chess.LegalProofs Chess.ShortcutProofs Chess.IsLegalProofs Chess.CapturesProofs gen.BitBoardTables.
 Import ListNotations.
 Local Open Scope N_scope.
 
@@ -248,7 +248,31 @@ Theorem C01_removeIllegal_sublist : forall zk p ml, emptyKeysZero zk -> WF p -> 
 Proof. exact removeIllegal_sublist. Qed.
 Print Assumptions C01_removeIllegal_sublist.
 
-(** * Full statements not (yet) proved: carried by the correspondence against the Spec *)
+(** C01_captures_complete: every move pseudoLegalCaptures generates is pseudo-legal; its
+    legality-filtered list contains every legal move of its class (captures incl. en passant,
+    promotions to queen or knight; rook/bishop under-promotions are outside the class by the
+    generator's contract) and only legal moves; the position is restored. *)
+Theorem C01_captures_complete : forall zk p m, emptyKeysZero zk -> WF p -> Consistent zk p ->
+  (forall m', In m' (pseudoLegalCaptures p) -> In m' (pseudoLegalMoves p)) /\
+  (legal_spec (abs p) m -> captureClass (abs p) m = true ->
+   In m (snd (removeIllegal zk p (pseudoLegalCaptures p)))) /\
+  (In m (snd (removeIllegal zk p (pseudoLegalCaptures p))) -> legal_spec (abs p) m) /\
+  normEmpty (fst (removeIllegal zk p (pseudoLegalCaptures p))) = normEmpty p.
+Proof. exact captures_complete. Qed.
+Print Assumptions C01_captures_complete.
+
+(** * Full statements not (yet) proved: carried by the correspondence against the Spec
+
+    Remaining gaps, each tied to the Spec on every run by the correspondence check:
+    - C01_nodup: no duplicates in pseudoLegalMoves (C01_legal_exact already gives the set and
+      the filter equation);
+    - C01_isLegal: king moves when not in check (attack test with the king lifted from the
+      occupancy) and the "moves along the king's line" exit; everything else is
+      C01_isLegal_partial;
+    - C01_evasions_complete / C01_captures_checks_complete: which pseudo-legal moves the two
+      generators contain (validTargets; discovered-check masks); that removeIllegal keeps
+      exactly the legal ones of whatever they contain is C01_removeIllegal_sublist;
+    - C01_givesCheck; C01_wf_preserved. *)
 
 (** no duplicates in the generated list (C01_legal_exact gives the set and, by the filter
     equation, reduces this to NoDup of pseudoLegalMoves) *)
@@ -263,10 +287,6 @@ Definition C01_isLegal_statement : Prop :=
 Definition C01_evasions_complete_statement : Prop :=
   forall zk p m, WF p -> inCheck p = true ->
     (In m (snd (removeIllegal zk p (checkEvasions p))) <-> legal_spec (abs p) m).
-
-Definition C01_captures_complete_statement : Prop :=
-  forall zk p m, WF p -> legal_spec (abs p) m -> captureClass (abs p) m = true ->
-    In m (snd (removeIllegal zk p (pseudoLegalCaptures p))).
 
 Definition C01_captures_checks_complete_statement : Prop :=
   forall zk p m, WF p -> legal_spec (abs p) m -> captureCheckClass (abs p) m = true ->
